@@ -962,13 +962,23 @@ func (fc *FnCtx) anchorAssertsAt(pos token.Pos) {
 		}
 		if a.Ghost != "" {
 			v := fc.evalExpr(a.C.E, env)
+			// a ghost of a []byte is a snapshot of its octets at this point (a string value), not an alias of the
+			// slice: later stores through the slice do not change it
+			if v.K == KSlice && v.T != nil {
+				if st, ok := v.T.Underlying().(*types.Slice); ok && kindOf(st.Elem()) == KInt && typeName(st.Elem()) == "uint8" {
+					arr := fmt.Sprintf("(select %s %s)", fc.getHeapTerm(&fc.cur, "A.uint8.v", arrOf(arrOf(SInt))), v.C[0])
+					v = mkVal(types.Typ[types.String], []string{arr, v.C[1], v.C[2]})
+				}
+			}
 			g := fc.freshVal("ghost."+a.Ghost, v.T)
 			g.K = v.K
 			if len(g.C) != len(v.C) {
 				fc.fail("ghost %s: unsupported value shape", a.Ghost)
 			}
+			// g is fresh and defined at this one point: the defining equations are a conservative extension and may
+			// be global, so that they survive the cut at a later loop head (ghosts in loop invariants)
 			for k := range v.C {
-				fc.assumeHere(fmt.Sprintf("(= %s %s)", g.C[k], v.C[k]))
+				fc.assertGlobal(fmt.Sprintf("(= %s %s)", g.C[k], v.C[k]))
 			}
 			if fc.ghosts == nil {
 				fc.ghosts = map[string]Val{}
